@@ -79,13 +79,15 @@ def P(a):
     return ir.Poly.atom(a)
 
 
-def check(tier):
-    rep = Report("C09", tier, "other")
+def declare(rep):
     rep.rule("C09.compile", "algebra / layer harness compiles", floor=10)
     rep.rule("C09.apply", "affine*vector row i == sum_j A[i][j]*v_j + A[i][N] (real-ring polynomial identity)", floor=4)
     rep.rule("C09.compose", "affine*affine == (A1*A2 | A1*t2 + t1): right factor first", floor=8)
     rep.rule("C09.factory", "translation/scaling/identity entries are exactly 0, 1 or the argument at the textbook position", floor=12)
     rep.rule("C09.layer", "layer lookup: one backend query at (A*c+t)_i per component, result routed unchanged", floor=4)
+
+
+def run(rep, tier):
     Ns = (1, 2, 3) if tier == "quick" else (1, 2, 3, 4)
     Ts = ("float", "double")
     hs = []
@@ -172,6 +174,13 @@ def check(tier):
                     good = False
             if good:
                 rep.ok("C09.layer", inst)
+    return hs
+
+
+def check(tier):
+    rep = Report("C09", tier, "other")
+    declare(rep)
+    hs = run(rep, tier)
     rep.assumptions = ["real-ring identity: floating-point rounding of the individual operations is not decided", "products of up to four transforms follow from associativity of the verified binary product"]
     rep.extra["instantiations"] = [h.name for h in hs]
     return rep.finish(
